@@ -30,6 +30,9 @@ func (w *World) InvokeProc(in Invocation) *Obs {
 	if in.Faults.FsizeLimit > 0 && prlimitPath == "" {
 		obs.Counts["fault_unavailable:file_size_limit_needs_prlimit"]++
 	}
+	if in.Faults.NofileLimit > 0 && prlimitPath != "" {
+		cmd = exec.Command(prlimitPath, append([]string{fmt.Sprintf("--nofile=%d:%d", in.Faults.NofileLimit, in.Faults.NofileLimit), SpokBin}, in.Args...)...)
+	}
 	if in.Faults.FsizeLimit > 0 && prlimitPath != "" {
 		// prlimit sets the limit and execs the binary: the limit is in force from the first instruction on.
 		// The Go runtime ignores SIGXFSZ, so the write simply fails with EFBIG after a short write.
